@@ -178,6 +178,9 @@ def step (st : St) (op : List String) (impl : String) : St × String :=
       let verdict := if st.prop = "C18" then (if impl = model then "ok" else "fail:trait-get-info-differs-from-the-direct-method-or-does-not-return") else "na"
       ({ st with store := { s1 with faults := [] } }, model ++ "\t" ++ verdict)
   | ["au.end"] => (st, "-\tna")
+  | ["au.twin", _] =>
+    -- C18: the case run through the trait and through the inherent methods on identically prepared authenticators
+    (st, "same\t" ++ (if impl = "same" then "ok" else "fail:trait-call-and-inherent-method-differ-in-what-the-store-or-the-user-validation-is-handed-or-in-a-result"))
   | _ => (st, "bad-op\tna")
 
 end PasskeyVerif.Driver.Auth
